@@ -367,3 +367,7 @@ void vf_harness(void) { int e; decodeBase64_tail(e); VF_CANARY(); }
     functions=['decodeBase64 (result length)'],
 )
 UNITS += [b64_tail]
+
+# Url::parseQuery(Url::params(d)) = d: the order-of-operations unit lives with the HTTP units
+from units.C09 import parse_query as _pq
+UNITS += [_pq]
